@@ -152,6 +152,15 @@ where
                 format!("order {order:?} f={ta}: eval with only the true variables of assignment {asg:03b} given = {got}")
             });
         }
+        // documented: "If values are specified multiple times for a variable, the last one counts":
+        // all variables with the complementary value first, then the overrides
+        for asg in 0..8usize {
+            let bit = |v: u32| (asg >> v) & 1 == 1;
+            let got = f.eval((0..n).map(|v| (v, !bit(v))).chain((0..n).rev().map(|v| (v, bit(v)))));
+            ctx.check(got == ta.get(asg), &format!("{k}:eval:repeated-variable-last-value-does-not-count"), || {
+                format!("order {order:?} f={ta}: eval with every variable given twice (complement first) for assignment {asg:03b} = {got}")
+            });
+        }
         ctx.check(f.satisfiable() == !ta.is_zero(), &format!("{k}:satisfiable"), || format!("f={ta}"));
         ctx.check(f.valid() == ta.is_one(), &format!("{k}:valid"), || format!("f={ta}"));
 
@@ -334,6 +343,39 @@ where
                 );
             } else if !want.is_const() {
                 ctx.distinct((k, &what, &want, threads, depth));
+            }
+            // eval with hostile argument lists: random order, some variables repeated (last value
+            // counts), false-valued variables partly omitted
+            for _ in 0..4 {
+                let a = rng.below(1 << n) as usize;
+                let mut args: Vec<(u32, bool)> = Vec::new();
+                for v in 0..n {
+                    let bit = (a >> v) & 1 == 1;
+                    match rng.below(4) {
+                        0 => args.extend([(v, !bit), (v, bit)]),
+                        1 => args.extend([(v, bit), (v, !bit), (v, bit)]),
+                        2 if !bit => {}
+                        _ => args.push((v, bit)),
+                    }
+                }
+                // shuffle, keeping the relative order of the entries of one variable
+                let mut keyed: Vec<(u64, usize, (u32, bool))> = Vec::new();
+                let mut key_of = vec![0u64; n as usize];
+                for (i, &(v, b)) in args.iter().enumerate() {
+                    if key_of[v as usize] == 0 || rng.chance(1, 2) {
+                        key_of[v as usize] = key_of[v as usize].max(1) + rng.below(1000);
+                    }
+                    keyed.push((key_of[v as usize], i, (v, b)));
+                }
+                keyed.sort();
+                let got = r.eval(keyed.iter().map(|x| x.2));
+                ctx.eval();
+                if got != want.get(a) {
+                    ctx.violation(
+                        &format!("{k}:eval:hostile-argument-list"),
+                        format!("random n={n} order {order:?}: f={want} assignment {a:#b} passed as {:?}: eval = {got}", keyed.iter().map(|x| x.2).collect::<Vec<_>>()),
+                    );
+                }
             }
             // cofactors of the result
             let mc = model_cofactors(K::SEM, &want, &order);
